@@ -1020,6 +1020,19 @@ def translate_header(path):
     items = p.block_items()
     if p.peek() is not None or len(items) != 1 or items[0][0] != "dowhile":
         raise Refuse("insertRebalance: the extracted fragment is not one do-while statement")
+    # a scalar declared at the top level of the loop body is re-initialised in every iteration: it is the same as a local
+    # declared before the loop and assigned there (normal form: the loop function always has the same parameters)
+    hoisted = []
+    body0 = items[0][1]
+    if body0[0] == "block":
+        nb = []
+        for st in body0[1]:
+            if st[0] == "decl" and st[3] is not None and st[1] in ("usize", "ssize", "Item*"):
+                hoisted.append(("decl", st[1], st[2], None))
+                nb.append(("expr", ("assign", ("id", st[2]), st[3])))
+            else:
+                nb.append(st)
+        items = [("dowhile", ("block", nb), items[0][2])]
     # variables the loop uses but does not declare: `parent` (parameter) and locals declared before the loop
     used, declared = set(), set()
 
@@ -1039,13 +1052,14 @@ def translate_header(path):
                 walk(x)
     walk(items)
     pre = []
-    for v in sorted(used - declared - {"parent"}):
+    for v in sorted(used - declared - {"parent"} - {d[2] for d in hoisted}):
         if v in FUNCS or v in ("this",):
             continue
         md = re.search(r"\b(usize|ssize|Item\s*\*)\s+" + v + r"\s*;", ibody[:dos[0]])
         if not md:
             raise Refuse(f"insertRebalance: `{v}` is neither declared in the loop nor a plain local declared before it")
         pre.append(("decl", re.sub(r"\s+", "", md.group(1)), v, None))
+    pre = sorted(pre + hoisted, key=lambda d: d[2])
     asts["insertRebalance"] = (pre + items, [("ptr", "parent")], "void")
     order2.append("insertRebalance")
     pure_of = {fn: False for fn in FUNCS}
